@@ -175,6 +175,15 @@ InitVector ==
     /\ (da.given => Len(l) <= 2 /\ Len(r) <= 2)
     /\ case = Cmp("vector", l, r, "default", "none", da)
 
+\* vectors whose components have disparate magnitudes: each component is compared within the tolerance of ITS OWN
+\* larger magnitude - one large, equal component next to a small component that is equal / within / outside
+SmallPairs == {<<1000, 1000>>, <<1000, 1001>>, <<1000, 1500>>, <<0, 0>>, <<0, 1>>, <<2000, 1000>>}
+InitVecMix ==
+  \E n \in 2..MaxVec, pos \in 1..MaxVec, big \in {m \in BaseMags : m >= 1000000}, sp \in SmallPairs, rel \in Rels :
+    /\ pos <= n
+    /\ LET mk(small) == [j \in 1..n |-> Op("qty", IF j = pos THEN small ELSE big, 0, Len1, "base")]
+       IN  case = Cmp("vecmix", mk(sp[1]), mk(sp[2]), rel, "none", NoDim)
+
 -----------------------------------------------------------------------------
 (* The comparison machine.                                                   *)
 Init == /\ \/ ("boundary" \in Families /\ InitBoundary)
@@ -183,6 +192,7 @@ Init == /\ \/ ("boundary" \in Families /\ InitBoundary)
            \/ ("complex" \in Families /\ InitComplex)
            \/ ("dimension" \in Families /\ InitDimension)
            \/ ("vector" \in Families /\ InitVector)
+           \/ ("vecmix" \in Families /\ InitVecMix)
         /\ i = 1 /\ verdict = "running"
 
 Compare(v) ==
